@@ -75,6 +75,32 @@ def run(tier, rep, replay=None):
                               {"class": cls, "seed": bytes(job["seed"]).hex(), "msg": bytes(job["msg"]).hex(), "ctx": bytes(job["ctx"]).hex(),
                                "explain": "the library's %s is not the value TLC computes from RFC 8032 (Ed25519SignJob.tla / Ed448SignJob.tla)" % part})
     rep.add(tlc_recomputed_ed25519=len(ejobs) - 2, tlc_recompute_states=sum(x[1] for x in eres))
+    # ---- TLC itself verifies (RFC 8032 5.1.7: decoding, subgroup test, both group equations) a sample of the Ed25519 verify lines
+    vname = {"Ed25519": "pure", "Ed25519ctx": "ctx", "Ed25519ph": "ph"}
+    vrfc = {"variant": "pure", "pk": rfc["pk"], "msg": rfc["msg"], "ctx": [], "sig": rfc["sig"], "accepted": True}
+    vjobs = [(vrfc, None), (dict(vrfc, sig=fals["sig"]), None)]
+    vl = [l for l in lines if l["ev"] == "verify" and l["variant"] in vname and not l["panics"]]
+    byclass = {}
+    for l in vl:
+        byclass.setdefault(l["class"].split("#")[0].split("+")[0], []).append(l)
+    classes = sorted(byclass)
+    rnd.shuffle(classes)
+    for c in classes[:(20 if thorough else 4)]:
+        l = rnd.choice(byclass[c])
+        vjobs.append(({"variant": vname[l["variant"]], "pk": hx(l["pub"]), "msg": hx(l["msg"]), "ctx": hx(l["ctx"]), "sig": hx(l["sig"]), "accepted": l["accepted"]}, l))
+    with ThreadPoolExecutor(min(C.NCPU, 12)) as ex:
+        vres = list(ex.map(lambda ij: ed_job(w, 100 + ij[0], ij[1][0], "Ed25519VerifyJob"), enumerate(vjobs)))
+    if not (vres[0][0]["consistent"] and vres[0][0]["verdict"] == "accept") or vres[1][0]["consistent"]:
+        raise C.Infra("Ed25519VerifyJob does not accept RFC 8032 test 2 / does not refuse a falsified signature")
+    for (job, l), (v, _) in list(zip(vjobs, vres))[2:]:
+        f = v["facts"]
+        if f and f["a_canon"] and f["r_canon"] and l["facts"]["a_canon"] and l["facts"]["r_canon"] and f != l["facts"]:
+            raise C.Infra("Ed25519VerifyJob and the math/big transcription disagree on the facts of %s %s: %s vs %s" % (l["variant"], l["class"], f, l["facts"]))
+        if not v["consistent"]:
+            rep.violation("rfc8032-verify:%s:%s:%s" % (l["variant"], l["class"].split("#")[0], "accepted" if l["accepted"] else "rejected"),
+                          {"observed": {k: l[k] for k in ("variant", "class", "pub", "msg", "ctx", "sig", "accepted")}, "tlc_facts": f, "tlc_verdict": v["verdict"],
+                           "explain": "the library's answer is not one RFC 8032 verification allows, as executed by TLC (Ed25519VerifyJob.tla)"})
+    rep.add(tlc_verified_ed25519=len(vjobs) - 2, tlc_verified_classes=sorted({l["class"].split("#")[0] for _, l in vjobs[2:]}), tlc_verify_states=sum(x[1] for x in vres))
     good = [i for i in range(len(lines)) if i not in set(bad)]
     gv = [i for i in good if lines[i]["ev"] == "verify" and not lines[i]["accepted"] and not lines[i]["facts"]["cofactored"]]
     gs = [i for i in good if lines[i]["ev"] == "sign"]
@@ -93,13 +119,13 @@ def run(tier, rep, replay=None):
             either=sum(1 for l in ver if l["facts"]["cofactored"] and not (l["facts"]["cofactorless"] and l["facts"]["a_prime"]) and l["facts"]["s_less"] and l["facts"]["a_canon"] and l["facts"]["r_canon"]))
     for l in [x for x in lines if x["ev"] == "sign"][:1] + ver[:2]:
         rep.sample({k: v for k, v in l.items() if k not in ("hr", "hk", "q1", "q2", "q3", "rr", "kk", "s", "sdig")})
-    rep.assumptions += ["TLC itself recomputes Ed25519 / Ed25519ctx / Ed25519ph keys and signatures for a sample (Ed25519SignJob.tla, about 50 s each); for Ed448 and for the facts of verification, point arithmetic and hashing on the oracle side come from a math/big transcription of RFC 8032 (harness/drivers/edref: SHA-512 from the standard library, SHAKE256 from golang.org/x/crypto); TLC decides the verdict from the recorded facts and re-derives the scalar arithmetic of every signature (BigNat)",
+    rep.assumptions += ["TLC itself recomputes Ed25519 / Ed25519ctx / Ed25519ph keys and signatures for a sample (Ed25519SignJob.tla, about 50 s each) and executes RFC 8032 verification for a sample of the verify lines (Ed25519VerifyJob.tla, about 50 s each, its facts cross-checked with the transcription's); for Ed448 and for the facts of the remaining verify lines, point arithmetic and hashing on the oracle side come from a math/big transcription of RFC 8032 (harness/drivers/edref: SHA-512 from the standard library, SHAKE256 from golang.org/x/crypto); TLC decides the verdict from the recorded facts and re-derives the scalar arithmetic of every signature (BigNat)",
                         "the reduction of 512-/912-bit hash values is exercised on structured inputs by the C12 in-tree recorder of sign/ed25519; here hash values are whatever the messages give",
                         "Ed25519ctx with an empty context (RFC: SHOULD NOT) is not exercised"]
 
 
 MANIFEST = {
- "text": "Ed25519SignJob.tla is RFC 8032 section 5.1 key generation and signing (pure, ctx, ph) as an executable behaviour - SHA-512 one action per round (Sha512Ops.tla), clamping, scalar multiplication on edwards25519 with the complete addition law one action per bit, inversion, encoding, reduction modulo L - with which TLC recomputes public keys and signatures of sampled (seed, message, context) triples of the run after reproducing RFC 8032 test 2 and rejecting a falsified signature; Ed448SignJob.tla is the same for section 5.2 (SHAKE256, edwards448 in projective coordinates, 57-byte encodings; about 10 minutes per signature, thorough tier only). Rfc8032Verdict.tla states what RFC 8032 verification decides as a function of facts about the inputs (lengths, S < L, canonical encodings of A and R, A in the prime-order subgroup, cofactorless / cofactored equation): mandatory reject, mandatory accept, or the room the RFC leaves for torsion components; MC_EdVerdict checks the table exhaustively on toy cyclic groups with cofactor 8 and 4 (cofactorless implies cofactored, equivalence on the prime-order subgroup, honest signatures are accepted, S + L satisfies the same equations so only the S < L test rejects it). The driver derives keys and signs with all five variants over structured seeds, 11 message lengths and context lengths 0 / 1 / 255 and compares public key and signature bytes with a math/big transcription of RFC 8032; TLC additionally re-derives r = H_r mod L, k = H_k mod L and S = r + k s mod L for the S found in the library's signature. Verification is exercised on honest signatures, S + jL for every j that fits, S in {0, L-1, L, L+1, 2^bits, all-ones}, the 57th byte of Ed448's S, single-bit alterations of signature / key, altered message / context, 256-byte contexts, wrong and empty lengths, Ed448 junk bits in A and R (signed with the junk bytes in the challenge hash), all small-order points as A and as R, their y+p and x=0-with-sign-bit spellings, mixed-order keys, y >= p, random strings; each verdict must be consistent with the table and identical through VerifyAny / the scheme object.",
+ "text": "Ed25519SignJob.tla is RFC 8032 section 5.1 key generation and signing (pure, ctx, ph) as an executable behaviour - SHA-512 one action per round (Sha512Ops.tla), clamping, scalar multiplication on edwards25519 with the complete addition law one action per bit, inversion, encoding, reduction modulo L - with which TLC recomputes public keys and signatures of sampled (seed, message, context) triples of the run after reproducing RFC 8032 test 2 and rejecting a falsified signature; Ed448SignJob.tla is the same for section 5.2 (SHAKE256, edwards448 in projective coordinates, 57-byte encodings; about 10 minutes per signature, thorough tier only). Ed25519VerifyJob.tla executes section 5.1.7 (point decoding with the square root of 5.1.3, S < L, [L]A, k, both group equations) on sampled verify lines of every class and requires the library's answer to be one the verdict table allows. Rfc8032Verdict.tla states what RFC 8032 verification decides as a function of facts about the inputs (lengths, S < L, canonical encodings of A and R, A in the prime-order subgroup, cofactorless / cofactored equation): mandatory reject, mandatory accept, or the room the RFC leaves for torsion components; MC_EdVerdict checks the table exhaustively on toy cyclic groups with cofactor 8 and 4 (cofactorless implies cofactored, equivalence on the prime-order subgroup, honest signatures are accepted, S + L satisfies the same equations so only the S < L test rejects it). The driver derives keys and signs with all five variants over structured seeds, 11 message lengths and context lengths 0 / 1 / 255 and compares public key and signature bytes with a math/big transcription of RFC 8032; TLC additionally re-derives r = H_r mod L, k = H_k mod L and S = r + k s mod L for the S found in the library's signature. Verification is exercised on honest signatures, S + jL for every j that fits, S in {0, L-1, L, L+1, 2^bits, all-ones}, the 57th byte of Ed448's S, single-bit alterations of signature / key, altered message / context, 256-byte contexts, wrong and empty lengths, Ed448 junk bits in A and R (signed with the junk bytes in the challenge hash), all small-order points as A and as R, their y+p and x=0-with-sign-bit spellings, mixed-order keys, y >= p, random strings; each verdict must be consistent with the table and identical through VerifyAny / the scheme object.",
  "note": "Seeds and messages are structured plus seeded random (2 repetitions per variant quick, 12 thorough).",
  "technique": "executable RFC 8032 Ed25519 signing in TLA+ recomputing sampled outputs + TLC exhaustive check of the decision table on toy groups + TLC judgement of recorded sign/verify calls (RFC 8032 decision table, BigNat re-derivation of S) + differential against a math/big transcription of RFC 8032",
 }
